@@ -25,11 +25,12 @@ DefaultCfg == [precision |-> 100, mode |-> "HalfEven", lowThr |-> 5, highThr |->
                maxPad |-> 1000, serdeLimit |-> 150000, profile |-> "?"]
 EmptyHist == [hash |-> <<>>, div |-> <<>>, inv |-> <<>>]
 
-Init == l = 1 /\ cfg = DefaultCfg /\ regs = <<>> /\ hist = EmptyHist /\ bad = <<>>
+NoRegs == [i \in 1..16 |-> DZero]
+Init == l = 1 /\ cfg = DefaultCfg /\ regs = NoRegs /\ hist = EmptyHist /\ bad = <<>>
 
 \* an argument is either inline or a register reference {"r": k}
 Arg(v) == IF "r" \in DOMAIN v THEN regs[v.r] ELSE DecOf(v)
-WArg(v) == WOf(v)
+WArg(v) == IF "r" \in DOMAIN v THEN W(regs[v.r]) ELSE WOf(v)
 
 \* explicit context of an event, or the configured defaults
 PrecOf(e) == IF "p" \in DOMAIN e THEN e.p ELSE cfg.precision
@@ -44,6 +45,7 @@ Verdict(e) ==
   CASE op = "add" -> AddOK(Arg(e.a), Arg(e.b), e.r)
     [] op = "sub" -> SubOK(Arg(e.a), Arg(e.b), e.r)
     [] op = "mul" -> MulOK(Arg(e.a), Arg(e.b), e.r)
+    [] op = "load" -> RepIs(e.r, DecOf(e.a))
     [] op = "neg" -> NegOK(Arg(e.a), e.r)
     [] op = "abs" -> AbsOK(Arg(e.a), e.r)
     [] op = "double" -> DoubleOK(Arg(e.a), e.r)
@@ -136,7 +138,7 @@ Step ==
           /\ hist' = EmptyHist
           /\ UNCHANGED <<regs, bad>>
      ELSE IF e.op = "reset"
-     THEN hist' = EmptyHist /\ UNCHANGED <<cfg, regs, bad>>
+     THEN hist' = EmptyHist /\ regs' = NoRegs /\ UNCHANGED <<cfg, bad>>
      ELSE IF e.op = "note"
      THEN UNCHANGED <<cfg, regs, hist, bad>>
      ELSE LET v0 == Verdict(e)
@@ -147,7 +149,9 @@ Step ==
                       ELSE IF e.op = "inverse" THEN [hist EXCEPT !.inv = InvRemember(hist.inv, Arg(e.a), PrecOf(e), ModeOf(e), e.r)]
                       ELSE IF e.op = "div" /\ "bits" \notin DOMAIN e.a THEN [hist EXCEPT !.div = DivRemember(hist.div, Arg(e.a), Arg(e.b), e.r)]
                       ELSE hist
-          /\ UNCHANGED <<cfg, regs>>
+          \* the register takes the decimal the implementation produced (resynchronisation)
+          /\ regs' = IF "dst" \in DOMAIN e /\ IsD(e.r) /\ "e" \in DOMAIN e.r.d THEN [regs EXCEPT ![e.dst] = DecOf(e.r.d)] ELSE regs
+          /\ UNCHANGED cfg
 
 Next == Step
 Spec == Init /\ [][Next]_vars
